@@ -208,8 +208,8 @@ func c17Build(c c17Case, now time.Time) (*w.State, string) {
 }
 
 // c17JudgeReturned: the error the sync itself reports (Reconcile's return value) must reflect failed parallel calls as
-// well, whenever the status write succeeded (otherwise that error is returned). The canary clean-up is the documented
-// exception: ManageCanaryDeployment records the failure in PodsCleanupDone and asks for a prompt requeue instead.
+// well, whenever the status write succeeded (otherwise that error is returned) - in every role: "reflected in the error
+// the sync reports AND in the condition" (the canary clean-up had been exempted until round 7; see DESIGN.md section 5).
 func c17JudgeReturned(run *h.Run, c c17Case, sch *schedule, statusWritten, statusAttempted bool, returned error) {
 	if sch.deadlock {
 		return
@@ -220,7 +220,7 @@ func c17JudgeReturned(run *h.Run, c c17Case, sch *schedule, statusWritten, statu
 			Message: fmt.Sprintf("%d failed pod calls", sch.failures), Rank: int64(c.K*100 + sch.failures),
 			Replay: map[string]interface{}{"level": "reconcile", "case": c, "schedule": sch.choices, "released": sch.released}})
 	}
-	if !statusWritten || c.Kind == "cleanup-canary" {
+	if !statusWritten {
 		return
 	}
 	if sch.failures > 0 && returned == nil {
@@ -436,7 +436,6 @@ func TestC17(t *testing.T) {
 	run.Cov["race_reports"] = raceReports
 	run.Sample(map[string]interface{}{"case": cases[len(cases)-1], "schedule": "release order x outcome per pending pod call"})
 	run.Assumptions = []string{"scheduling points are the pod API calls of the parallel goroutines (their only interaction besides WaitGroup / channel fan-in); unsynchronised memory accesses are left to the separate free-running -race pass",
-		"for the canary role only the PodsCleanupDone condition is required to reflect a failed clean-up (ManageCanaryDeployment returns nil by design and requeues)",
 		"race detection is happens-before based on the executions of the race pass, not an enumeration"}
 	exit(run.Finish(fmt.Sprintf("controlled scheduler (every pod create/delete of a sync blocks on a gate; synctest.Wait detects quiescence; calls are released one at a time): ALL release orders x ALL failure subsets of the parallel create / delete / clean-up batches of size 1..%d through the real replica-set Reconcile (and the real ManageDeployment for the returned error); plus a free-running -race pass of the same bodies with batches 2..64 and of the four reconcilers and a kubelet model hammering one store; non-trivial = distinct (fan-out, batch size, failures)", maxK)))
 }
